@@ -1,10 +1,21 @@
 (* C14 — connect/disconnect hooks are balanced; enumeration shows exactly the live links.
-   Proved here (step-level facts of Link.v; the global prefix invariant over all schedules is
-   enforced by the hook monitor and the window-level correspondence of the check, level note):
+   Proved here: over ALL reachable states of Link.v (every schedule, fault sequence, peer behaviour)
+   the notifications form one of the three prefixes of connect(registry), connect(link),
+   disconnect(registry), disconnect(link); the enumeration shows the remote exactly between the two
+   pairs; nothing is invoked before the connect pair.  And the step-level facts:
    registration and the two connect notifications happen in one step (one critical section), in
    the order registry-wide then per-link; removal and the two disconnect notifications likewise;
    the set-up goroutine reaches the disconnect step only after both reader loops have returned. *)
-From Verif Require Import Base Link LinkProofs.
+From Verif Require Import Base Link LinkProofs LinkInvH.
+
+Theorem hook_protocol :
+  forall calls s,
+    lreachable fixed calls s ->
+    (rev (hooks_of (evs s)) = [] /\ remotes s = 0 /\ invoked_any (evs s) = false) \/
+    (rev (hooks_of (evs s)) = [(true, false); (true, true)] /\ remotes s = 1) \/
+    (rev (hooks_of (evs s)) = [(true, false); (true, true); (false, false); (false, true)] /\ remotes s = 0).
+Proof. exact hook_protocol_lemma. Qed.
+Print Assumptions hook_protocol.
 
 Theorem connect_is_atomic_with_registration :
   forall calls s,
